@@ -153,26 +153,39 @@ func checkC03(c *Ctx, r *Report) {
 	}
 	for _, f := range c.FuncsNamed(proxyPkg + ".addCacheHeaders") {
 		found := false
-		eachInstr(f, func(in ssa.Instruction) {
-			phi, ok := in.(*ssa.Phi)
-			if !ok {
-				return
-			}
-			for i, e := range phi.Edges {
-				if s, isC := constString(e); isC && s == "HIT" {
-					found = true
-					pred := phi.Block().Preds[i]
-					fs := factStrs(f, pred.Instrs[len(pred.Instrs)-1])
-					okH := false
-					for k := range fs {
-						if strings.HasSuffix(k, fmt.Sprintf(".hitStatus==%d=true", hit)) {
-							okH = true
-						}
-					}
-					r.Check(okH, "C03.R1", "X-Cache: HIT only for hitStatusHit", c.InstrPos(phi), "the \"HIT\" edge is selected by hitStatus == hitStatusHit", "X-Cache: HIT is emitted for another hit status: "+strings.Join(keysOf(fs), " ∧ "))
+		checkHit := func(fs map[string]bool, where string) {
+			found = true
+			okH := false
+			for k := range fs {
+				if strings.HasSuffix(k, fmt.Sprintf(".hitStatus==%d=true", hit)) {
+					okH = true
 				}
 			}
-		})
+			r.Check(okH, "C03.R1", "X-Cache: HIT only for hitStatusHit", where, "the \"HIT\" label is selected by hitStatus == hitStatusHit", "X-Cache: HIT is emitted for another hit status: "+strings.Join(keysOf(fs), " ∧ "))
+		}
+		for _, hc := range helperContexts(f, 2) {
+			g := hc.fn
+			eachInstr(g, func(in ssa.Instruction) {
+				switch x := in.(type) {
+				case *ssa.Phi:
+					for i, e := range x.Edges {
+						if s, isC := constString(e); isC && s == "HIT" {
+							pred := x.Block().Preds[i]
+							checkHit(ctxFactStrs(g, pred.Instrs[len(pred.Instrs)-1], hc.ctx), c.InstrPos(x))
+						}
+					}
+				case *ssa.Return:
+					if g == f || isRecoverReturn(x) {
+						return
+					}
+					for _, v := range retVals(x) {
+						if s, isC := constString(v); isC && s == "HIT" {
+							checkHit(ctxFactStrs(g, x, hc.ctx), c.InstrPos(x))
+						}
+					}
+				}
+			})
+		}
 		r.Check(found, "C03.R1", "X-Cache label table", c.Pos(f.Pos()), "HIT label present", "no \"HIT\" label found in addCacheHeaders (anchor changed)")
 	}
 
@@ -272,77 +285,95 @@ func checkC03(c *Ctx, r *Report) {
 	}
 	r.Floor("C03.R2", nStale, 4, "stale computations (2 backends × Get/GetMetadata)")
 
-	// ---- R3: decision table of GetExpiresOrDefault
+	// ---- R3: decision table of GetExpiresOrDefault, compared as a table: for every assignment of the
+	// branch atoms the kind of lifetime returned must be the one the priority order prescribes
 	for _, f := range c.FuncsNamed("(*" + headersPkg + ".HeaderDirectives).GetExpiresOrDefault") {
-		var haveMax, haveExp, haveDef bool
-		eachInstr(f, func(in ssa.Instruction) {
-			ret, ok := in.(*ssa.Return)
-			if !ok {
-				return
+		bs := &boolSummer{li: li}
+		isNowAdd := func(v ssa.Value) bool {
+			call, ok := v.(*ssa.Call)
+			if !ok || calleeName(call) != "(time.Time).Add" {
+				return false
 			}
-			val := atomStr(ret.Results[0])
-			fs := factStrs(f, ret)
-			notForce := hasFact(fs, "$forceDefaultCacheMaxAge", false)
-			switch {
-			case strings.Contains(val, ".maxAge"):
-				haveMax = true
-				okm := notForce && hasFact(fs, "IsPresent(&$hd.CacheControl)", true) && (hasFact(fs, ".maxAge>0", true) || hasFact(fs, ".maxAge>=1", true) || hasFact(fs, ".maxAge<1", false) || hasFact(fs, ".maxAge<=0", false))
-				inverted := hasFact(fs, "IsPresent(&$hd.Expires)", false) || hasFact(fs, "IsPresent(&$hd.Expires)", true)
-				r.Check(okm && !inverted && strings.HasPrefix(val, "Add(Now(),"), "C03.R3", "lifetime = now + max-age", c.InstrPos(ret), "returned under ¬force ∧ CC present ∧ maxAge>0, independent of Expires", "max-age lifetime has the wrong guards (needs ¬force ∧ Cache-Control present ∧ max-age>0, and must not depend on Expires): "+strings.Join(keysOf(fs), " ∧ "))
-			case strings.Contains(val, "Value(&$hd.Expires)"):
-				haveExp = true
-				oke := notForce && hasFact(fs, "IsPresent(&$hd.Expires)", true)
-				r.Check(oke, "C03.R3", "lifetime = Expires date", c.InstrPos(ret), "returned under ¬force ∧ Expires present", "Expires lifetime has the wrong guards: "+strings.Join(keysOf(fs), " ∧ "))
-				// priority: must be reachable only when max-age did not apply: the max-age return must dominate in order, i.e. this return must not be reachable when CC∧maxAge>0
-				r.Check(!hasFact(fs, ".maxAge>0", true), "C03.R3", "max-age has priority over Expires", c.InstrPos(ret), "Expires is consulted only after the max-age test failed", "Expires is returned although a positive max-age is present (priority inversion)")
-			case strings.Contains(val, "$defaultCacheMaxAge"):
-				haveDef = true
-				r.Check(strings.HasPrefix(val, "Add(Now(),"), "C03.R3", "lifetime = now + configured default", c.InstrPos(ret), "fallback", "default lifetime is not now + default_max_age")
-			default:
-				r.Fail("C03.R3", "unclassified lifetime source "+val, c.InstrPos(ret), "GetExpiresOrDefault returns a time from an unexpected source")
-			}
-		})
-		r.Check(haveMax && haveExp && haveDef, "C03.R3", "all three lifetime sources exist", c.Pos(f.Pos()), "max-age, Expires, default", fmt.Sprintf("missing lifetime source: max-age=%v Expires=%v default=%v", haveMax, haveExp, haveDef))
-		// priority check via path: the Expires return must be unreachable under CC present ∧ maxAge>0: checked with edge pruning
-		// (the fact-based check above only sees dominating facts)
-		var expRet ssa.Instruction
-		var maxIf *ssa.BasicBlock
-		eachInstr(f, func(in ssa.Instruction) {
-			if ret, ok := in.(*ssa.Return); ok && strings.Contains(atomStr(ret.Results[0]), "Value(&$hd.Expires)") {
-				expRet = ret
-			}
-		})
-		for _, b := range f.Blocks {
-			if iff, ok := b.Instrs[len(b.Instrs)-1].(*ssa.If); ok && strings.Contains(atomStr(iff.Cond), ".maxAge>0") {
-				maxIf = b
-			}
+			recv, ok := resolveVal(callArgs(call)[0]).(*ssa.Call)
+			return ok && calleeName(recv) == "time.Now"
 		}
-		if expRet != nil && maxIf != nil {
-			reach := len(walkFrom(pos{maxIf.Succs[0], 0}, nil, isInstr(expRet), nil)) > 0
-			r.Check(!reach, "C03.R3", "Expires unreachable once max-age>0 holds", c.InstrPos(expRet), "the max-age>0 true edge cannot reach the Expires return", "the Expires return is reachable from the max-age>0 branch")
-		}
-	}
-	// completeness of the table (the other direction): once a source has been selected by its
-	// guard, every path to a return yields that source — no extra condition may divert it to a
-	// later one (e.g. "Expires present but zero → default" would turn 'already expired' into 'fresh').
-	for _, f := range c.FuncsNamed("(*" + headersPkg + ".HeaderDirectives).GetExpiresOrDefault") {
-		type sel struct{ condSub, valSub, what string }
-		for _, sl := range []sel{{".maxAge>0", ".maxAge", "max-age"}, {"IsPresent(&$hd.Expires)", "Value(&$hd.Expires)", "Expires"}} {
-			for _, b := range f.Blocks {
-				iff, ok := b.Instrs[len(b.Instrs)-1].(*ssa.If)
-				if !ok || !strings.Contains(atomStr(iff.Cond), sl.condSub) {
-					continue
+		kindOf := func(p bsPath) string {
+			if len(p.vals) == 0 {
+				return "?"
+			}
+			v := p.vals[0]
+			for i := 0; i < 4; i++ {
+				if phi, ok := v.(*ssa.Phi); ok && p.pe != nil && p.pe[phi] != nil {
+					v = p.pe[phi]
 				}
-				var bad []string
-				for _, e := range walkFrom(pos{b.Succs[0], 0}, nil, isReturn, nil) {
-					ret := e.(*ssa.Return)
-					if !strings.Contains(atomStr(ret.Results[0]), sl.valSub) {
-						bad = append(bad, c.InstrPos(ret)+" returns "+atomStr(ret.Results[0]))
+			}
+			fromMax, fromExp, fromDef := false, false, false
+			derivesFromDeep(v, nil, func(x ssa.Value, cx dctx) bool {
+				if _, pth := ctxFieldPath(x, cx); len(pth) > 0 && pth[len(pth)-1] == "maxAge" {
+					fromMax = true
+				}
+				if call, ok := x.(*ssa.Call); ok && strings.HasSuffix(calleeName(call), "headers.Header).Value") {
+					if _, pth := ctxFieldPath(callArgs(call)[0], cx); len(pth) > 0 && pth[len(pth)-1] == "Expires" {
+						fromExp = true
 					}
 				}
-				r.Check(len(bad) == 0, "C03.R3", "once "+sl.what+" applies it is what is returned", c.InstrPos(iff), "every return reachable from the guard's true edge yields the "+sl.what+" lifetime", "after the "+sl.what+" guard holds the function can still fall through to another source: "+strings.Join(bad, "; "))
+				if prm, ok := x.(*ssa.Parameter); ok && prm.Parent() == f && prm.Name() == "defaultCacheMaxAge" {
+					fromDef = true
+				}
+				return false
+			})
+			switch {
+			case fromMax && !fromExp && !fromDef && isNowAdd(v):
+				return "max-age"
+			case fromExp && !fromMax && !fromDef:
+				return "Expires"
+			case fromDef && !fromMax && !fromExp && isNowAdd(v):
+				return "default"
+			}
+			return "other(" + atomStr(v) + ")"
+		}
+		atoms, rows, ok := bs.kindTable(f, kindOf)
+		if !ok {
+			r.Undecided("C03.R3", "lifetime decision table", c.Pos(f.Pos()), "GetExpiresOrDefault has a loop or too many branch atoms: its decision table is not enumerated")
+			continue
+		}
+		classify := func(a string) string {
+			switch {
+			case a == "$forceDefaultCacheMaxAge":
+				return "force"
+			case strings.HasPrefix(a, "IsPresent(") && strings.Contains(a, ".CacheControl"):
+				return "cc"
+			case strings.HasSuffix(a, ".maxAge>0"):
+				return "pos"
+			case strings.HasPrefix(a, "IsPresent(") && strings.Contains(a, ".Expires"):
+				return "exp"
+			}
+			return ""
+		}
+		var bad []string
+		seenKinds := map[string]bool{}
+		for _, row := range rows {
+			v := specVars(row.assign, classify)
+			want := "default"
+			switch {
+			case v["force"]:
+				want = "default"
+			case v["cc"] && v["pos"]:
+				want = "max-age"
+			case v["exp"]:
+				want = "Expires"
+			}
+			seenKinds[row.kind] = true
+			if row.kind != want {
+				bad = append(bad, fmt.Sprintf("[%s] yields %s, want %s", lits(row.assign).String(), row.kind, want))
 			}
 		}
+		if len(bad) > 3 {
+			bad = append(bad[:3], fmt.Sprintf("… %d more rows", len(bad)-3))
+		}
+		r.Check(len(bad) == 0, "C03.R3", "lifetime source follows force > max-age > Expires > default for every branch outcome", c.Pos(f.Pos()), fmt.Sprintf("%d rows over atoms %v", len(rows), atoms), "the lifetime decision table deviates from the priority order (forced default, else positive max-age, else Expires — also when it is in the past or zero — else default): "+strings.Join(bad, "; "))
+		r.Check(seenKinds["max-age"] && seenKinds["Expires"] && seenKinds["default"], "C03.R3", "all three lifetime sources exist", c.Pos(f.Pos()), "max-age, Expires, default", fmt.Sprintf("missing lifetime source: %v", keysOf(seenKinds)))
+		r.Floor("C03.R3", len(rows), 8, "rows of the lifetime decision table")
 	}
 	// the force flag and default passed by the caller are the live settings
 	for _, f := range c.FuncsNamed("(*" + proxyPkg + ".fetcher).handleUpstream200") {
